@@ -15,45 +15,72 @@ from ekw import c10_real as R
 PROPERTY = "C10"
 LEVEL_TEXT = ("Lean theorems over Model/Lower.lean (fluent Node constructor, node2task, graph2job, param_source), Model/Runner.lean "
               "(argument assembly, output binding with strict-zip semantics, the stateful Memory with local/bufs/shared memory, "
-              "execute_sequence over several tasks, is_last_output_of) and, for the coordinate step, Model/Fluent.lean (withYields): "
+              "execute_sequence over several tasks, is_last_output_of, all_outputs_published) and, for the coordinate step, "
+              "Model/Fluent.lean (withYields): "
               "for every serialised graph one task per node and one positional edge per argument naming an input (c10_tasks_edges); the "
               "callable receives exactly the declared args with every argument naming an input replaced by the upstream value and the "
-              "declared kwargs (c10_binding; statics unchanged is its corollary c10_statics_unchanged); the k-th yielded value is stored "
-              "under the k-th declared output for every N >= 2 (c10_yield_binding_partial/_fluent) and therefore sits at the k-th "
-              "declared coordinate of the yields dimension (c10_yield_coordinate, linking the two models through fluentOutputs); with one "
+              "declared kwargs (c10_binding), and at every position whose declared argument is not a string EQUAL to an input name it "
+              "receives that argument itself (c10_statics_received, on graph2job + run; c10_statics_unchanged is the lemma about subst it "
+              "uses); the k-th yielded value is stored "
+              "under the k-th declared output for every N >= 2 (c10_yield_binding_partial/_fluent); c10_yield_coordinate composes this "
+              "with withYields through the convention 'array element out k = Output(parent, parent.outputs[k])' (refOf, a definition "
+              "in Model/YieldRef.lean: the step from output name to coordinate is not derived from a model of apply_ufunc but compared "
+              "with the real Action.__init__ by the tie - driver op ref_of on every position of every yields dimension of the prog "
+              "cases - and by the oracle on their consumers); with one "
               "declared output the returned object itself - scalar, str, list, array - is the value (c10_single_output_value); a "
               "yield-count mismatch is an error (c10_count_mismatch_partial), a generator raising after m values binds and publishes "
               "exactly the first min(m, N) outputs and fails (c10_partial_publication); for EVERY run, failing ones included, the "
-              "notices are a prefix of the declaration and the completion output goes out last (c10_published_prefix, "
-              "c10_completion_after_all); execute_sequence over any history of the worker's memory runs every task against what its "
+              "notices are a prefix of the declaration (c10_published_prefix); completion AS notify DECIDES IT (all_outputs_published): "
+              "for every run, every publish set and every delivery order of the notices the rule answers 'complete' exactly at the last "
+              "delivered notice and only if every declared output was published (c10_completion_all_outputs), exactly once for a "
+              "successful fully published run (c10_completion_fires_once); c10_completion_is_last / c10_completion_after_all describe "
+              "is_last_output_of, which is still in notify.py but which notify no longer calls (and the latter only for runs that publish "
+              "the last declared output); execute_sequence over any history of the worker's own operations runs every task against what its "
               "predecessors in the sequence handled, published or not (c10_sequence_sees_local, c10_seq_unpublished_visible), never "
-              "hits the corruption branch (c10_mem_never_corrupted), reports exactly the first failure (c10_seq_failure_reported) and "
-              "flush keeps only what shared memory backs (c10_flush_keeps_published). Unbounded in arity, nodes, outputs, sequence "
-              "length; tied to the real code by a node-by-node / sequence-by-sequence / task-by-task correspondence check. Carried by "
-              "the tie only: that the payload at index i of an array given to Action.map reaches the node at index i (oracle "
-              "'wrong-callable'), and the contents of pickled values.")
+              "hits the corruption branch (c10_mem_never_corrupted: by the invariant bufs within keys(local) over those operations; a "
+              "buffer closed by another party is not an operation of the model), reports exactly the first failure "
+              "(c10_seq_failure_reported) and flush keeps only what shared memory backs (c10_flush_keeps_published). The Lean statements "
+              "are unbounded in arity, nodes, outputs, sequence length and treat values as opaque; the tie (node-by-node / "
+              "sequence-by-sequence / task-by-task correspondence with the real code) samples up to 13 inputs per node (placeholders "
+              "input0..input12, static strings that contain or resemble an input name), up to 14 outputs, sequences of 1-4 tasks, and "
+              "as task results opaque tokens, None, ints, floats, bools, str, bytes, dicts, lists, tuples (empty, nested) and int/float "
+              "arrays, returned and yielded, compared by a canonical text that includes the array dtype. Carried by the tie only: that the "
+              "payload at index i of an array given to Action.map reaches the node at index i (oracle 'wrong-callable'), the "
+              "output-to-coordinate convention, which callable a task names (cloud-pickled func, entrypoint string through "
+              "resolve_callable, func preferred when both), the gateway's job file stage, and that values pass through "
+              "Memory.handle / shared memory / Memory.provide unchanged (the model stores values as given).")
 LEVEL_NOTE = ("modelled, not verified: low/into.py node2task+graph2job, low/views.py param_source, runner/runner.py run, runner/memory.py "
-              "handle/provide/flush/pop, runner/entrypoint.py execute_sequence, controller/notify.py is_last_output_of, fluent.Node.__init__ "
+              "handle/provide/flush/pop, runner/entrypoint.py execute_sequence, controller/notify.py is_last_output_of (dead code) and "
+              "all_outputs_published, fluent.Node.__init__ "
               "(argument completion and output naming), fluent.Action.__init__ (yields dimension); shared memory and the zmq callback are "
               "replaced by in-process fakes; cloudpickle/pydantic are exercised but trusted. Known finding: a generator declared with ONE "
-              "output is stored as the generator object (c10_yield_binding_partial needs N >= 2). The payload format cannot express a static "
+              "output is stored as the generator object (c10_yield_binding_partial needs N >= 2); the finding is matched by its observed "
+              "mechanism (the generator object handed to Memory.handle under the single output, failing only by pickling when published), "
+              "any other failure of a one-output generator is reported. The payload format cannot express a static "
               "string equal to an input name (c10_string_naming_input_is_reference); not a finding, the property's 'arguments that name "
               "other nodes' outputs'")
 TECHNIQUE = ("Lean 4 proof (induction over argument lists / output lists / task sequences, memory invariant over operation histories) + "
              "differential correspondence with the real graph2job, execute_sequence and runner")
-LEAN_PROPS = ["EkwVerif.Props.C10", "EkwVerif.Props.C10Seq", "EkwVerif.Props.C10Coord"]
+LEAN_PROPS = ["EkwVerif.Props.C10", "EkwVerif.Props.C10Seq", "EkwVerif.Props.C10Coord", "EkwVerif.Props.C10Done"]
 LEAN_DRIVERS = ["C10"]
 RULE = ("random graphs of 1-7 nodes built by hand (graph.Node; 30% of the later nodes carry the very callable OBJECT of an earlier node, "
         "mostly with as many outputs under other names / in another order; 2.5% non-tuple or absent payloads), through fluent.Node (30% of "
         "the later nodes are built from the very Payload object of an earlier node, with another - often smaller - number of inputs), "
         "through a fluent program (from_source(yields=...) over 1-3 generator sources followed by map(array of payloads), the payload for "
-        "index (i, j) known to the oracle by its index only; or 1-2 dimensional sources followed by 1-4 map / reduce steps that share 1-3 "
+        "index (i, j) known to the oracle by its index only, a third of them with sources that yield None / numbers / containers / bytes; "
+        "or 1-2 dimensional sources (a quarter of the 1-dimensional ones with 10-13 elements, reduced unbatched into one node with 10-13 "
+        "inputs) followed by 1-4 map / reduce steps that share 1-3 "
         "payloads given as Payload object, plain callable or functools.partial, with explicit placeholders; every run contains the batched "
         "reductions with EVERY batch size 2..size+1 over EVERY size 2..9) or directly as JobInstance: arity 0-6 with upstream/static "
         "positions mixed, 0-3 kwargs, statics int/str/None and (one in five) float/bool/list/tuple/dict/ndarray, strings equal to an input "
-        "name, input names inputN or arbitrary, the same parent output used by several inputs / several nodes / nobody, duplicated and "
+        "name and strings that contain or resemble one ('input0_scaled', 'xinput1', 'input10', 'input00'), 12% of the fluent nodes "
+        "with 10-13 inputs and explicit placeholders up to input12, three in eight tasks of a direct JobInstance name their callable "
+        "by entrypoint string (func None -> resolve_callable('ekw.c10_real.EP_k')) or by both (func must win), input names inputN or "
+        "arbitrary, the same parent output used by several inputs / several nodes / nobody, duplicated and "
         "missing placeholders, 1-14 outputs with numeric, unsorted or multi-letter names, generators yielding N-2..N+2 values, generators "
-        "raising after 0..N+1 values, list/tuple/str/ndarray results (also for ONE output), scalar and raising callables, keyword and "
+        "raising after 0..N+1 values, list/tuple/str/ndarray results (also for ONE output), scalar and raising callables; 30% of the "
+        "returning / yielding callables give None, ints, floats, bools, str, bytes, dicts, empty containers, nested tuples, int/float "
+        "arrays instead of opaque tokens (and their consumers must receive exactly these); keyword and "
         "positional edges with gaps. 55% of the cases are run as TaskSequences of 1-4 consecutive tasks with a random publish subset "
         "(p = 0, .3, .5, 1), so that consumers read unpublished outputs of the same sequence from Memory.local; the Memory persists across "
         "sequences (shared) or not (fresh). non-trivial = case with >= 1 upstream argument or >= 1 multi-output task; distinct by content hash")
@@ -61,7 +88,15 @@ ASSUMPTIONS = [
     "shared memory (cascade.shm.client) and the zmq callback are replaced by in-process fakes; serde is the real one (cloudpickle)",
     "tasks run in topological order in TaskSequences of 1-4 tasks on one worker; between sequences values travel through the fake shared "
     "memory (an unpublished output needed by a LATER sequence is 'withheld': the oracle has no opinion, the model is still compared)",
-    "upstream values are opaque tokens or the list/tuple/str/array a one-output task returned; pickled values are compared by a canonical text",
+    "upstream values are opaque tokens, the list/tuple/str/array a one-output task returned, or None / int / float / bool / str / bytes / "
+    "dict / list / tuple (empty, nested) / int or float array; pickled values are compared by a canonical text (type, contents, array dtype)",
+    "keyword arguments are bound by name: the oracle compares them as a set of (name, value), the tie with the model compares the order "
+    "in which the callable saw them as well",
+    "a job whose static values are all JSON-native must survive the gateway's job file (a fallback there is a violation); for other "
+    "jobs the in-memory job is used (C17's matter); more than 20% fallbacks among the native ones or fewer than 40% files overall "
+    "fail the check",
+    "a consumer whose parent failed / is no proper generator has no expected value, but if its callable is invoked it must receive the "
+    "declared statics and what the store held under each upstream dataset when it started",
     "dict keys of node inputs, kwargs and output_schema are distinct (Python dicts); static_input_ps keys are decimal naturals",
     "edges name existing outputs of existing tasks (RunnerContext.project would raise KeyError otherwise; not modelled - seen as a disagreement)",
     "'declared': a slot where the author placed an input receives that input's upstream value; a value the author wrote is received as "
@@ -78,7 +113,32 @@ ASSUMPTIONS = [
 
 # ----------------------------------------------------------------------------- generator
 
-STATIC_STR = ["x", "mean", "input7", "0", "10", "b", "a", "src", "input0", "input1"]
+STATIC_STR = ["x", "mean", "input7", "0", "10", "b", "a", "src", "input0", "input1",
+              # strings that CONTAIN an input name without being one: values the author wrote
+              "input0_scaled", "xinput1", "input10", "input1x", "my_input0", "input", "Input0", "input00", "src_b", "xa"]
+# what a task may return / yield besides opaque tokens (text of Python literals)
+WIDE = ["None", "None", "0", "7", "-3", "0.0", "2.5", "-0.5", "True", "False", "{}", "{'a': 1, 'b': [1, 2]}", "[]", "()", "''",
+        "(1, (2, (3,)))", "((), [])", "b''", "b'ab\\x00'", "[None]", "(None, 0)", "{'k': None}", "'ok'", "{1: (2, 3)}", "[[], {}]",
+        "1e+100", "'input0'", "{'input0': 0}"]
+
+
+def _wide(rng):
+    r = rng.random()
+    if r < 0.12:
+        return None
+    if r < 0.9:
+        return {"py": rng.choice(WIDE)}
+    if r < 0.95:
+        return {"ndf": [rng.choice([0.5, 1.0, -2.0]) for _ in range(rng.randint(0, 3))]}
+    return {"nd": [rng.randint(0, 9) for _ in range(rng.randint(0, 3))]}
+
+
+def _widen(rng, beh, p=0.3):
+    """with probability p the callable returns / yields None, ints, floats, bools, dicts, empty containers, nested tuples,
+    bytes, arrays instead of opaque tokens"""
+    if beh["kind"] in ("ret", "gen", "genraise") and rng.random() < p:
+        beh = dict(beh, vals=[_wide(rng) for _ in range(1 if beh["kind"] == "ret" else beh["m"])])
+    return beh
 PNAMES = ["a", "b", "c", "src", "left", "right", "q"]
 KWKEYS = ["k0", "k1", "alpha", "axis"]
 
@@ -136,6 +196,10 @@ def _out_names(rng, n):
 
 
 def _beh(rng, n):
+    return _widen(rng, _beh0(rng, n))
+
+
+def _beh0(rng, n):
     r = rng.random()
     if n == 1:
         if r < 0.66:
@@ -238,7 +302,7 @@ def gen_fluent(rng):
     nodes, prev = [], []
     for i in range(n):
         outs = _outs(rng, False)
-        k = rng.randint(0, 4) if prev else 0
+        k = (rng.randint(0, 4) if rng.random() < 0.88 else rng.randint(10, 13)) if prev else 0    # 10-13 inputs: input1 vs input10..12
         refs = _pick_inputs(rng, prev, k)
         nstat = rng.randint(0, 3)
         args = [_static(rng) for _ in range(nstat)]
@@ -292,6 +356,8 @@ def gen_fprog(rng, size=None, batch=None):
     size, batch given: a one-dimensional batched reduction of exactly that shape is among the steps."""
     if size is not None:
         dims = [size] if rng.random() < 0.75 else [size, rng.randint(2, 3)]
+    elif rng.random() < 0.25:
+        dims = [rng.randint(10, 13)]      # an unbatched reduce over it is a node with 10-13 inputs (placeholders input10..input12)
     elif rng.random() < 0.6:
         dims = [rng.randint(2, 9)]
     else:
@@ -299,6 +365,11 @@ def gen_fprog(rng, size=None, batch=None):
     npay = rng.choice([1, 1, 2, 2, 3])
     payloads = [_payload(rng, max(dims)) for _ in range(npay)]
     steps, left = [], {d: n for d, n in zip(["x", "y"], dims)}
+    if size is None and dims[0] >= 10 and rng.random() < 0.7:
+        if rng.random() < 0.4:
+            steps.append({"op": "map", "p": rng.randrange(npay)})
+        steps.append({"op": "reduce", "p": rng.randrange(npay), "dim": "x", "batch": 0})
+        del left["x"]
     if size is not None:
         if rng.random() < 0.3:
             steps.append({"op": "map", "p": rng.randrange(npay)})
@@ -334,7 +405,10 @@ def gen_prog(rng):
         coords.sort()
     s = rng.randint(1, 3)
     ms = [n if rng.random() < 0.7 else max(0, n + rng.choice([-2, -1, 1, 2])) for _ in range(s)]
-    return {"kind": "prog", "srcs": s, "coords": coords, "m": ms}
+    c = {"kind": "prog", "srcs": s, "coords": coords, "m": ms}
+    if rng.random() < 0.35:     # sources that yield None / numbers / containers / bytes instead of tokens
+        c["gvals"] = [[_wide(rng) for _ in range(m)] if rng.random() < 0.7 else None for m in ms]
+    return c
 
 
 def gen_job(rng):
@@ -355,7 +429,11 @@ def gen_job(rng):
                     idxs = idxs + [pos] if rng.random() < 0.9 else idxs
                 else:
                     edges.append([pi, o, i, None, rng.choice(KWKEYS + ["z"])])
-        tasks.append({"name": "t%d" % i, "ps": ps, "kw": kw, "outs": outs, "beh": _beh(rng, len(outs))})
+        tk = {"name": "t%d" % i, "ps": ps, "kw": kw, "outs": outs, "beh": _beh(rng, len(outs))}
+        how = rng.choice([None] * 5 + ["entrypoint", "entrypoint", "both"])
+        if how:     # func None + entrypoint 'ekw.c10_real.EP_k' (resolve_callable), or both given (func is preferred)
+            tk["entry"] = how
+        tasks.append(tk)
         prev.append(outs)
     return {"kind": "job", "tasks": tasks, "edges": edges}
 
@@ -504,7 +582,10 @@ def _status(spec, order, real):
         elif beh["kind"] == "gen":
             st[name] = "ok" if beh["m"] == n else "fail"
         elif beh["kind"] == "ret":
-            st[name] = "ok" if n == 1 else "fail"     # one value for N >= 2 declared outputs: count mismatch
+            ys = R.yielded(sp["key"], "ret", 1, beh["vals"]) if beh.get("vals") is not None else None
+            # one value for N >= 2 declared outputs: count mismatch (unless that value is a list / tuple / dict / str / bytes /
+            # array of exactly N elements: "iter")
+            st[name] = "ok" if n == 1 else ("iter" if ys is not None and len(ys) == n else "fail")
         elif n == 1:
             st[name] = "ok"          # ONE declared output: the returned object, whatever it is, is the value
         else:
@@ -519,6 +600,12 @@ def _out_index(spec, parent, out):
     return outs.index(out)
 
 
+def _val_k(sp, k):
+    """the k-th value the callable of this node yields (the value it returns, for k = 0 of a `ret` callable)"""
+    vals = sp["beh"].get("vals")
+    return R.tok(sp["key"], k) if vals is None else R.dec(vals[k])
+
+
 def _expected(spec, ref):
     if ref[0] == "static":
         return R.enc(ref[1])
@@ -529,7 +616,7 @@ def _expected(spec, ref):
         return R.enc(sp["vals"][k])
     if len(sp["outs"]) == 1 and sp["beh"]["kind"] in ITERABLES:
         return R.enc(R.result_of(sp["key"], sp["beh"]["kind"], sp["beh"]["m"]))
-    return R.enc(R.tok(sp["key"], k))
+    return R.enc(_val_k(sp, k))
 
 
 def oracle(case, real):
@@ -545,6 +632,15 @@ def oracle(case, real):
         cf = built.get("construct_failed") or {}
         return [({"kind": "node-construction-failed"}, "fluent.Node(Payload(f, args=%s), %d input(s)) raised %s"
                  % (cf.get("args"), cf.get("n_inputs", 0), built["lower_error"][10:]))]
+    gw = built.get("gateway")
+    if gw is not None and gw != "file" and built.get("gateway_expect_file"):
+        # every static value of the job is JSON-native, yet the job did not survive the gateway's job file (writer
+        # router._spawn_local / reader benchmarks.get_job): the tasks would never run what the graph declares
+        fails.append(({"kind": "job-file-roundtrip-failed", "how": gw.split(":")[0]}, "a job whose static values are all JSON-native "
+                      "(None/bool/int/float/str, lists and str-keyed dicts of them) did not travel through the gateway's job file: %s" % gw))
+    if built.get("relower") is not None:
+        fails.append(({"kind": "lowering-changes-the-graph"}, "graph2job on the same graph a second time gives %s, the first time %s"
+                      % (built["relower"], real["lower"])))
     if lowering and wf:
         if built["job"] is None:
             return [({"kind": "lowering-failed"}, "graph2job raised %s on a well-formed graph" % built["lower_error"])]
@@ -588,6 +684,16 @@ def oracle(case, real):
             fails.append(({"kind": "task-not-started"}, "task %s of sequence %s was never started although no earlier task of the "
                           "sequence failed" % (name, real["seqs"][si]["tids"])))
             continue
+        if run is not None and st[name] == "skip" and sp["wellformed"] and run["started"] and run["received"] is not None:
+            # no opinion on what this task should compute (a parent failed / is no proper generator / its value was withheld),
+            # but if its callable IS invoked it still receives the declared statics and, in each upstream slot, whatever the
+            # worker's memory or shared memory held under that dataset when the task started
+            mine = _check_args_vs_store(name, sp, run, spec)
+            _STATS["consumer_of_failed_or_withheld_parent_checked_against_store"] = _STATS.get("consumer_of_failed_or_withheld_parent_checked_against_store", 0) + 1
+            if mine:
+                bad.add(name)
+                fails += mine
+            continue
         if run is None or st[name] == "skip":
             continue
         mine = _check_task(name, sp, run, st[name], spec)
@@ -602,6 +708,31 @@ def oracle(case, real):
     if not fails:
         fails += _check_finals(built, real, st)
     return fails
+
+
+def _check_args_vs_store(name, sp, run, spec):
+    avail = {(t, o): v for t, o, v in run["avail"] or []}
+    rec = run["received"]
+
+    def want(ref):
+        if ref[0] == "static":
+            return True, R.enc(ref[1])
+        _, parent, out = ref
+        ds = (parent, spec[parent]["outs"][_out_index(spec, parent, out)])
+        return (ds in avail), avail.get(ds)
+    wa = [want(a) for a in sp["args"]]
+    wk = {k: want(v) for k, v in sp["kwargs"].items()}
+    got_kw = {k: v for k, v in rec["kwargs"]}
+    ok = len(rec["args"]) == len(wa) and all(g == w for g, (known, w) in zip(rec["args"], wa) if known) and \
+        set(got_kw) == set(wk) and all(got_kw[k] == w for k, (known, w) in wk.items() if known)
+    if rec["key"] != sp["key"]:
+        return [({"kind": "wrong-callable", "class": "consumer-of-a-failed-parent"}, "task %s ran the callable %s; the author gave it %s"
+                 % (name, rec["key"], sp["key"]))]
+    if not ok:
+        return [({"kind": "args-binding", "class": "against-store"}, "task %s (a parent of it did not succeed) received args %s kwargs %s; "
+                 "declared statics and what the store held under each upstream dataset are %s %s"
+                 % (name, rec["args"], rec["kwargs"], [w for _, w in wa], {k: w for k, (_, w) in wk.items()}))]
+    return []
 
 
 def _check_finals(built, real, st):
@@ -623,8 +754,12 @@ def _check_finals(built, real, st):
 def _check_bound(name, sp, run, cls):
     """every value found under a published output (in shared memory) or handed to Memory.handle is the one yielded at the
     position at which that output was declared -- also in runs that end in a failure"""
-    ys = R.yielded(sp["key"], sp["beh"]["kind"], sp["beh"]["m"]) or []
+    ys = R.yielded(sp["key"], sp["beh"]["kind"], sp["beh"]["m"], sp["beh"].get("vals")) or []
     want = {sp["outs"][k]: R.enc(ys[k]) for k in range(min(len(ys), len(sp["outs"])))}
+    for o, v in run.get("kept") or []:
+        if want.get(o) != v:
+            return [({"kind": "yield-binding", "class": cls}, "task %s: declared outputs %s; the worker's memory holds %s under %s; k-th yielded "
+                     "value under k-th declared output would be %s" % (name, sp["outs"], v, o, want))]
     for o, v in run["stored"].items():
         if want.get(o) != v:
             return [({"kind": "yield-binding", "class": cls}, "task %s: declared outputs %s; output %s holds %s; k-th yielded value under "
@@ -636,17 +771,39 @@ def _check_bound(name, sp, run, cls):
     return []
 
 
+GEN1_MECHANISM = "generator-object-handed-to-Memory.handle-as-the-value-of-the-single-output"
+
+
+def _gen1_mechanism(sp, run):
+    """the mechanism of the known single-output finding, OBSERVED on this run: runner.run took the one-output path, i.e.
+    Memory.handle was called exactly once, for the single declared output, with the generator object itself (never
+    iterated), the worker's memory holds that object, and the only consequence is the pickling failure if (and only if)
+    that output is published. Anything else that goes wrong with a one-output generator is another defect."""
+    h = run["handled"]
+    if len(h) != 1 or h[0][0] != sp["outs"][0] or h[0][1] != {"o": "generator"}:
+        return False
+    if [list(x) for x in run.get("kept") or []] != [[sp["outs"][0], {"o": "generator"}]]:
+        return False
+    rec = run["received"]
+    if rec is None or rec["calls"] != 1 or run["stored"]:
+        return False
+    return run["error"] == ("unpicklable" if sp["outs"][0] in run["publish"] else None)
+
+
 def _check_task(name, sp, run, status, spec):
     fails = []
     n = len(sp["outs"])
     kind = sp["beh"]["kind"]
     gen1 = kind in ("gen", "genraise") and n == 1
+    # the known-finding class only while its mechanism is what is seen; otherwise the failure is reported as its own kind
+    gen1_cls = {"class": "single-output-generator", "mechanism": GEN1_MECHANISM} if gen1 and _gen1_mechanism(sp, run) \
+        else {"class": "single-output-generator-without-the-known-mechanism"}
     if status == "fail":
         if run["error"] is None:
             k2 = "count-mismatch-not-reported" if kind in ("gen", "ret") + ITERABLES else "failure-not-reported"
             sig = {"kind": k2}
             if gen1:
-                sig["class"] = "single-output-generator"
+                sig.update(gen1_cls)
             elif k2 == "count-mismatch-not-reported":
                 sig["class"] = "fewer" if sp["beh"]["m"] < n else "more"
             fails.append((sig, "task %s declared %d outputs %s, callable %s: no task failure reported (stored %s)"
@@ -660,7 +817,7 @@ def _check_task(name, sp, run, status, spec):
         fails += _check_bound(name, sp, run, "iterable")
         if run["error"] is None and set(run["publish"]) == set(sp["outs"]) and len(run["events"]) != n:
             fails.append(({"kind": "completion-not-last"}, "task %s succeeded with publications %s" % (name, run["events"])))
-        comp = run["completion"]
+        comp = run["complete"]
         if True in comp and (comp.count(True) != 1 or comp[-1] is not True or
                              [e[1] for e in run["events"]] != [o for o in sp["outs"] if o in run["publish"]]):
             fails.append(({"kind": "completion-not-last"}, "task %s: publications %s, completion rule fires at %s"
@@ -668,8 +825,10 @@ def _check_task(name, sp, run, status, spec):
         return fails
     # status ok: declaration and behaviour agree, every input was made available
     want_args = [_expected(spec, a) for a in sp["args"]]
-    want_kwargs = sorted([k, _expected(spec, v)] for k, v in sp["kwargs"].items())
+    want_kwargs = sorted(([k, _expected(spec, v)] for k, v in sp["kwargs"].items()), key=lambda e: e[0])
     rec = run["received"]
+    if rec is not None:      # keyword arguments are bound by name: their order is not part of the declaration (the tie compares it)
+        rec = dict(rec, kwargs=sorted(rec["kwargs"], key=lambda e: e[0]))
     if rec is None or rec["calls"] != 1:
         fails.append(({"kind": "not-invoked-once"}, "task %s: callable invoked %s times, error %s" % (name, rec and rec["calls"], run["error"])))
     elif rec["key"] != sp["key"]:
@@ -679,7 +838,7 @@ def _check_task(name, sp, run, status, spec):
                       % (name, rec["args"], rec["kwargs"], want_args, want_kwargs)))
     if run["error"] is not None:
         if gen1:
-            fails.append(({"kind": "yield-binding", "class": "single-output-generator"},
+            fails.append((dict({"kind": "yield-binding"}, **gen1_cls),
                           "task %s: generator declared with ONE output %s yielded one value; instead of storing it the task failed with %s"
                           % (name, sp["outs"], run["error"])))
         else:
@@ -690,23 +849,33 @@ def _check_task(name, sp, run, status, spec):
             return fails     # the value of such a callable names what it received: already reported
         want = {sp["outs"][k]: R.enc(sp["vals"][k]) for k in range(n)}
     elif kind == "gen":
-        want = {sp["outs"][k]: R.enc(R.tok(sp["key"], k)) for k in range(n)}
+        want = {sp["outs"][k]: R.enc(_val_k(sp, k)) for k in range(n)}
     elif kind in ITERABLES:
         want = {sp["outs"][0]: R.enc(R.result_of(sp["key"], kind, sp["beh"]["m"]))}
     else:
-        want = {sp["outs"][0]: R.enc(R.tok(sp["key"], 0))}
+        want = {sp["outs"][0]: R.enc(_val_k(sp, 0))}
     local = {o: v for o, v, _ in run["handled"]}
+    kept = {o: v for o, v in run.get("kept") or []}
+    if local == want and kept != want:
+        # what Memory.handle was given is right, what the worker's memory holds afterwards (and a consumer in the same
+        # sequence will read) is not
+        sig = dict({"kind": "yield-binding"}, **(gen1_cls if gen1 else {"class": "kept-single" if n == 1 else "kept-multi"}))
+        fails.append((sig, "task %s: declared outputs %s; after Memory.handle the worker's memory holds %s; k-th yielded value under "
+                      "k-th declared output would be %s" % (name, sp["outs"], kept, want)))
     if local != want:
-        sig = {"kind": "yield-binding", "class": "single-output-generator" if gen1 else ("single" if n == 1 else "multi")}
+        sig = dict({"kind": "yield-binding"}, **(gen1_cls if gen1 else {"class": "single" if n == 1 else "multi"}))
         fails.append((sig, "task %s: declared outputs %s; stored locally %s; k-th yielded value under k-th declared output would be %s"
                       % (name, sp["outs"], local, want)))
     want = {o: v for o, v in want.items() if o in run["publish"]}
     if run["stored"] != want and not fails:
-        sig = {"kind": "yield-binding", "class": "single-output-generator" if gen1 else ("single" if n == 1 else "multi")}
+        sig = dict({"kind": "yield-binding"}, **(gen1_cls if gen1 else {"class": "single" if n == 1 else "multi"}))
         fails.append((sig, "task %s: declared outputs %s; stored %s; k-th yielded value under k-th declared output would be %s"
                       % (name, sp["outs"], run["stored"], want)))
+    if True in run["complete"] and set(run["publish"]) != set(sp["outs"]):
+        fails.append(({"kind": "completion-before-all-outputs"}, "task %s: publications %s of declared outputs %s, yet the controller's "
+                      "completion rule answers %s" % (name, [e[1] for e in run["events"]], sp["outs"], run["complete"])))
     if set(run["publish"]) == set(sp["outs"]):
-        comp = run["completion"]
+        comp = run["complete"]       # notify.all_outputs_published, notice by notice in the order sent
         if comp.count(True) != 1 or comp[-1] is not True or len(run["events"]) != n:
             fails.append(({"kind": "completion-not-last"}, "task %s: publications %s, completion rule fires at %s"
                           % (name, [e[1] for e in run["events"]], comp)))
@@ -726,6 +895,11 @@ def model_lines(case, real):
         ser = next(s for s in built["ser"] if s["name"] == fn["name"])
         expect.append({"args": ser["payload"]["args"], "outputs": ser["outputs"], "inputs": [i[0] for i in ser["inputs"]]})
         where.append("fluent-node-constructor")
+    for parent, n, k, ref in built.get("yield_refs") or []:
+        # Action.__init__(yields): the element at the k-th declared coordinate is Output(parent, parent.outputs[k])
+        lines.append({"op": "ref_of", "parent": parent, "n": n, "k": k})
+        expect.append({"output": ref[1], "task": ref[0]})
+        where.append("Action.__init__(yields)")
     if built["ser"] is not None:
         lines.append({"op": "lower", "nodes": built["ser"]})
         expect.append(real["lower"])
@@ -781,6 +955,19 @@ def model_lines(case, real):
             expect.append({"received": None if rec is None else {"args": rec["args"], "kwargs": rec["kwargs"]},
                            "handled": run["handled"], "error": run["error"], "completion": run["completion"]})
             where.append("runner.run")
+            import random as _random
+            notices = [e[1] for e in run["events"]]
+            lines.append({"op": "all_published", "n_outputs": len(tasks[t]["out_schema"]), "notices": notices})
+            expect.append({"flags": run["complete"]})
+            where.append("all_outputs_published")
+            if notices:      # notices may overtake each other and be repeated (retries)
+                prng = _random.Random(len(lines))
+                other = list(notices)
+                prng.shuffle(other)
+                other.insert(prng.randint(0, len(other)), prng.choice(other))
+                lines.append({"op": "all_published", "n_outputs": len(tasks[t]["out_schema"]), "notices": other})
+                expect.append({"flags": R.all_published_real(built["job"], t, other)})
+                where.append("all_outputs_published")
             lines.append({"op": "is_last", "outs": tasks[t]["out_schema"]})
             expect.append({"is_last": real["is_last"][t]})
             where.append("is_last_output_of")
@@ -789,7 +976,7 @@ def model_lines(case, real):
 
 def _canon_recv(r):
     if isinstance(r, dict):
-        return {"args": r["args"], "kwargs": sorted(r["kwargs"])}
+        return {"args": r["args"], "kwargs": r["kwargs"]}     # in the order the callable saw them (dict order of **kwargs)
     return r
 
 
@@ -914,6 +1101,10 @@ def shrink(case, sig):
                     cur, progress = c, True
                     break
         return cur
+    return _shrink_vals(_shrink_nodes(case, sig), sig)
+
+
+def _shrink_nodes(case, sig):
     items = case["tasks"] if case["kind"] == "job" else case["nodes"]
     for i in range(len(items)):
         c = _isolate(case, i)
@@ -933,6 +1124,28 @@ def shrink(case, sig):
         if _fails_with(c, sig):
             best = c
     return best
+
+
+def _shrink_vals(case, sig):
+    """replace the non-token result values of each node / task by opaque tokens, and wide values by None, while the same
+    kind of failure remains"""
+    key = "tasks" if case["kind"] == "job" else "nodes"
+    if key not in case:
+        return case
+    cur = case
+    for i in range(len(cur[key])):
+        beh = cur[key][i].get("beh") or {}
+        if beh.get("vals") is None:
+            continue
+        cands = [{k: v for k, v in beh.items() if k != "vals"}]
+        cands += [dict(beh, vals=[v if j == k else None for j, v in enumerate(beh["vals"])]) for k in range(len(beh["vals"]))]
+        for b2 in cands[:8]:
+            c = dict(cur)
+            c[key] = [dict(x, beh=b2) if j == i else x for j, x in enumerate(cur[key])]
+            if _fails_with(c, sig):
+                cur = c
+                break
+    return cur
 
 
 def _fails_with(case, sig):
@@ -967,8 +1180,11 @@ def _count(ctx, case, real):
     built = real["built"]
     if built.get("gateway"):
         ctx.count("via_gateway:" + built["gateway"])
+        ctx.count("via_gateway_json_native_statics:%s" % bool(built.get("gateway_expect_file")))
     if built["lower_error"]:
         ctx.count("lower_error:" + built["lower_error"])
+    if built.get("yield_refs"):
+        ctx.count("yields_dimension_elements_compared_with_refOf", len(built["yield_refs"]))
     if built.get("static_string_equals_input_name"):
         ctx.count("static_string_equals_input_name", built["static_string_equals_input_name"])
     by_key = {}
@@ -990,6 +1206,25 @@ def _count(ctx, case, real):
         if sp["kwargs"]:
             ctx.count("tasks_with_kwargs")
         beh = sp["beh"]
+        for v in beh.get("vals") or []:
+            pv = R.dec(v)
+            tn = "None" if pv is None else type(pv).__name__
+            if isinstance(pv, (list, tuple, dict, str, bytes)) and len(pv) == 0:
+                tn = "empty-" + tn
+            elif isinstance(pv, tuple) and any(isinstance(x, tuple) for x in pv):
+                tn = "nested-tuple"
+            ctx.count("task_result_value:%s:%s" % ("returned" if beh["kind"] == "ret" else "yielded", tn))
+        if beh.get("vals") is not None and any(a[0] == "up" and a[1] == name for o in built["spec"].values()
+                                               for a in list(o["args"]) + list(o["kwargs"].values())):
+            ctx.count("task_with_non_token_result_has_consumers")
+        npl = len(sp["parents"])
+        if npl >= 10:
+            ctx.count("tasks_with_10-13_inputs:" + case["kind"])
+        import re as _re
+        for a in sp["args"]:
+            if a[0] == "static" and isinstance(a[1], str) and _re.search(r"input\d", a[1]):
+                m = _re.fullmatch(r"input(\d+)", a[1])
+                ctx.count("static_string_%s_an_input_name" % ("is_like" if m else "contains"))
         if beh["kind"] in ("gen", "genraise") and n > 1:
             d = beh["m"] - n
             ctx.count("%s_yield_delta:%+d" % (beh["kind"], max(-3, min(3, d))))
@@ -1002,6 +1237,18 @@ def _count(ctx, case, real):
             ctx.count("hand_callable_shared")
             if any(len(a) == len(b) and a != b and len(a) > 1 for a in outs for b in outs):
                 ctx.count("hand_callable_shared_same_count_other_output_names")
+    if case["kind"] == "job":
+        for t in case["tasks"]:
+            ctx.count("task_callable_named_by:" + {None: "func", "entrypoint": "entrypoint_only(resolve_callable)",
+                                                    "both": "func_and_entrypoint"}[t.get("entry")])
+    for nd in case.get("nodes") or []:
+        for a in nd.get("args") or []:
+            if isinstance(a, dict) and "ph" in a and a["ph"][:5] == "input" and a["ph"][5:].isdigit() and int(a["ph"][5:]) >= 9:
+                ctx.count("explicit_placeholder_input9-12")
+    for pl in case.get("payloads") or []:
+        for a in pl.get("args") or []:
+            if isinstance(a, dict) and "ph" in a and a["ph"][5:].isdigit() and int(a["ph"][5:]) >= 9:
+                ctx.count("explicit_placeholder_input9-12")
     for run in real["runs"].values():
         ctx.count("run_error:%s" % run["error"])
         if not run["started"]:
@@ -1045,6 +1292,8 @@ def _count(ctx, case, real):
 
 
 _REPORTED = {}
+_GATEWAY = {}
+_STATS = {}
 
 
 def _evaluate(ctx, cases, check_model=True):
@@ -1054,7 +1303,11 @@ def _evaluate(ctx, cases, check_model=True):
         real = run_real(case)
         ctx.case(case if len(json.dumps(case)) < 3000 else {"kind": case["kind"], "truncated": True}, nontrivial=_nontrivial(case))
         _count(ctx, case, real)
-        for sig, what in oracle(case, real):
+        _STATS.clear()
+        verdicts = oracle(case, real)
+        for k in list(_STATS):
+            ctx.count(k, _STATS.pop(k))
+        for sig, what in verdicts:
             key = json.dumps(sig, sort_keys=True)
             ctx.count("oracle_violation:" + sig["kind"])
             if key in _REPORTED.setdefault(id(ctx), set()):
@@ -1063,11 +1316,28 @@ def _evaluate(ctx, cases, check_model=True):
             small = shrink(case, sig)
             w2 = [w for s, w in oracle(small, run_real(small)) if s == sig]
             ctx.violation(sig, small, (w2 or [what])[0])
+        gw = real["built"].get("gateway")
+        if gw is not None:
+            tally = _GATEWAY.setdefault(id(ctx), {"attempts": 0, "file": 0, "native": 0, "native_fallback": 0})
+            tally["attempts"] += 1
+            tally["file"] += gw == "file"
+            if real["built"].get("gateway_expect_file"):
+                tally["native"] += 1
+                tally["native_fallback"] += gw != "file"
         if check_model:
             lines, expect, where = model_lines(case, real)
             for l, e, w in zip(lines, expect, where):
                 all_lines.append(json.dumps(l))
                 all_expect.append((case, l, e, w))
+    tally = _GATEWAY.get(id(ctx))
+    if tally and tally["attempts"] >= 20:
+        # floor under the job-file path: a fallback to the in-memory job is only legitimate for static values JSON cannot
+        # carry; more than 20 % fallbacks among the JSON-native jobs, or fewer than 40 % files overall, means the
+        # file stage is (being) switched off: a failure of the harness, not a quiet pass
+        if tally["native"] and tally["native_fallback"] > 0.2 * tally["native"]:
+            ctx.disagree("gateway-job-file-path-floor", tally, "at most 20% fallbacks among jobs with JSON-native statics", tally)
+        elif tally["file"] < 0.4 * tally["attempts"]:
+            ctx.disagree("gateway-job-file-path-floor", tally, "at least 40% of the via_gateway jobs travel as a file", tally)
     if check_model and all_lines:
         res = lean_drive("C10", all_lines)
         if len(res) != len(all_lines):
